@@ -131,10 +131,13 @@ type lfEngine struct {
 	entryName string
 	pending   []*ssa.Function
 	scheduled map[*ssa.Function]bool
+	copyTotal map[*ssa.Call]*lfCopy
 }
 
+type lfCopy struct{ Total, Partial int }
+
 func newLenflow(c *Ctx, maxDepth int) *lfEngine {
-	e := &lfEngine{c: c, obls: map[string]*lfObl{}, maxSteps: 4000000, maxDepth: maxDepth, analysed: map[*ssa.Function]bool{}, scheduled: map[*ssa.Function]bool{}, pure: map[*ssa.Function]int{}, loopsSeen: map[string]string{}, loopPos: map[string]token.Pos{}}
+	e := &lfEngine{c: c, obls: map[string]*lfObl{}, maxSteps: 4000000, maxDepth: maxDepth, analysed: map[*ssa.Function]bool{}, scheduled: map[*ssa.Function]bool{}, copyTotal: map[*ssa.Call]*lfCopy{}, pure: map[*ssa.Function]int{}, loopsSeen: map[string]string{}, loopPos: map[string]token.Pos{}}
 	e.addrTaken = map[string][]*ssa.Function{}
 	for _, fn := range c.ModFn {
 		if fn.Blocks == nil {
